@@ -360,6 +360,10 @@ func (p *Proc) evalBuiltin(ec *ectx, name string, call *ast.CallExpr) Val {
 		case *types.Array:
 			return Val{T: IntLit(v.Typ.Underlying().(*types.Array).Len()), Typ: intT}
 		case *types.Chan:
+			if name == "cap" {
+				// the capacity a channel was made with (immutable; recorded by make)
+				return Val{T: T(fmt.Sprintf("(chancap %s)", v.T.S), SInt), Typ: intT}
+			}
 			return Val{T: p.freshConst("chanlen", SInt), Typ: intT}
 		}
 		p.failf(call, "len/cap of %s", v.Typ)
@@ -396,10 +400,13 @@ func (p *Proc) evalBuiltin(ec *ectx, name string, call *ast.CallExpr) Val {
 			p.heapSet(ec.st, key, Store(h, r, zero))
 			return Val{T: MkSlice(r, IntLit(0), n, c), Typ: t}
 		case *types.Chan:
+			c := IntLit(0)
 			for _, a := range call.Args[1:] {
-				p.eval(ec, a)
+				c = p.convert(ec, p.eval(ec, a), intT)
 			}
-			return Val{T: p.alloc(ec.st, "chan"), Typ: t}
+			r := p.alloc(ec.st, "chan")
+			ec.st.assume(Eq(T(fmt.Sprintf("(chancap %s)", r.S), SInt), c))
+			return Val{T: r, Typ: t}
 		}
 		p.failf(call, "make of %s", t)
 	case "new":
